@@ -265,9 +265,46 @@ def enc_sequence(E, f):
             calls, chain = order, True
         else:
             unrolled = {}
+    def leaves(op, depth=0):
+        """element operands, in order, of a tuple / array value that is encoded as one value
+        (`(&self.a, (&self.b, &self.c)).encode(..)`, `[x, y, z].encode(..)`); [op] otherwise"""
+        pl = op_place(op)
+        for _ in range(8):
+            if pl is None or depth > 4:
+                return [op]
+            d = fa.single_def(pl["l"])
+            if d is None or any(e != "*" for e in pl["p"]):
+                return [op]
+            if d[2] == "call":
+                nm = (callee_of(d[3]) or {}).get("name")
+                if nm == "map" and d[3]["args"] and "; " in (d[3].get("arg_tys") or [""])[0]:
+                    inner = leaves(d[3]["args"][0], depth + 1)      # <[T; N]>::map is elementwise
+                    return inner if len(inner) > 1 else [op]
+                return [op]
+            rv = d[3]
+            if rv["k"] == "agg" and rv.get("agg") in ("tuple", "array"):
+                out = []
+                for o in rv["ops"]:
+                    out.extend(leaves(o, depth + 1))
+                return out
+            if rv["k"] in ("use", "cast"):
+                pl = op_place(rv["op"])
+            elif rv["k"] in ("ref", "rawptr"):
+                pl = rv["place"]
+            else:
+                return [op]
+        return [op]
     seq = []
     for b, t in calls:
         ty = t["arg_tys"][0] if t.get("arg_tys") else "?"
+        lv = leaves(t["args"][0]) if b not in unrolled else []
+        if len(lv) > 1 and len({tuple(sorted(backward_fields(E, fa, o))) for o in lv}) > 1:
+            # (elements that all come from one field - the lanes of a vector - stay one value)
+            for o in lv:
+                src = backward_fields(E, fa, o)
+                seq.append({"wire": norm_wire(ty), "raw": ty, "fields": sorted(src), "at": fa.loc(b), "b": b,
+                            "partial": None, "loose_wire": True})
+            continue
         if b in unrolled:
             for o in unrolled[b][1]:
                 src = backward_fields(E, fa, o)
@@ -319,7 +356,45 @@ def dec_sequence(E, f, self_adt):
         ty = result_ok_type(t.get("dest_ty", "")) or "?"
         seq.append({"wire": norm_wire(ty), "raw": ty, "fields": set(), "at": fa.loc(b), "b": b})
     # destination fields: the aggregate of Self reached by the return value
+    def element_path(op):
+        """which element of a decoded tuple / array an operand is: indices from the outside in"""
+        path = []
+        pl = op_place(op)
+        for _ in range(16):
+            if pl is None:
+                break
+            for e in reversed(pl["p"]):
+                if isinstance(e, dict) and e.get("o") == "(tuple)" and "f" in e:
+                    path.append(e["f"])
+                elif isinstance(e, dict) and "ci" in e and not e.get("from_end"):
+                    path.append(e["ci"])
+            d = fa.single_def(pl["l"])
+            if d is None:
+                break
+            if d[2] == "call":
+                # a conversion of the element (`vec.into_iter().collect()`), not the decode itself
+                if d[0] in blocks or not d[3]["args"] or \
+                        any("Try>::branch" in x or x.endswith("Try::branch") for x in callee_paths(d[3])):
+                    if d[3]["args"] and d[0] not in blocks:
+                        pl = op_place(d[3]["args"][0])
+                        continue
+                    break
+                pl = op_place(d[3]["args"][0])
+                continue
+            if d[2] != "assign":
+                break
+            rv = d[3]
+            if rv["k"] in ("use", "cast"):
+                pl = op_place(rv["op"])
+            elif rv["k"] in ("ref", "rawptr"):
+                pl = rv["place"]
+            elif rv["k"] == "agg" and rv.get("agg") == "adt" and len(rv.get("ops", [])) == 1:
+                pl = op_place(rv["ops"][0])          # a newtype wrapped around the element
+            else:
+                break
+        return tuple(reversed(path))
     agg_found = False
+    elem = {}            # decode call block -> {element path -> set of fields}
     for b, i, s in fa.stmts():
         if "lhs" not in s:
             continue
@@ -331,6 +406,19 @@ def dec_sequence(E, f, self_adt):
                     for e in seq:
                         if e["b"] == cb:
                             e["fields"].add(fname)
+                    elem.setdefault(cb, {}).setdefault(element_path(o), set()).add(fname)
+    # a call that decodes a tuple / array whose elements go to different fields stands for one
+    # wire value per element, in element order
+    if any(len(m) > 1 for m in elem.values()):
+        seq2 = []
+        for e in seq:
+            m = elem.get(e["b"], {})
+            if len(m) > 1:
+                for pth in sorted(m):
+                    seq2.append(dict(e, fields=set(m[pth]), loose_wire=True))
+            else:
+                seq2.append(e)
+        seq = seq2
     if not agg_found:
         for e in seq:
             e["fields"].add("*")
@@ -458,7 +546,7 @@ def codec_rule(ctx, prop):
                    + ("" if ok else " - the image cannot round-trip"))
             nfields = len(crate.fields(adt)) if adt in crate.adts else 0
             for k, (e, d) in enumerate(zip(es, ds)):
-                wok = e["wire"] == d["wire"]
+                wok = e["wire"] == d["wire"] or e.get("loose_wire") or d.get("loose_wire")
                 ctx.ob("CODEC", "%s|%s|wire|%d" % (cfg, adt, k), wok, d["at"],
                        "%s value #%d: encoder wire type %s %s decoder %s"
                        % (adt.split("::")[-1], k, e["raw"], "==" if wok else "!=", d["raw"]),
